@@ -355,11 +355,27 @@ fn linked_field_ast_node<TCompilationProfile: CompilationProfile>(
     let refetch_query = match object_selectable {
         DefinitionLocation::Server(_) => "null".to_string(),
         DefinitionLocation::Client(_) => {
-            let refetch_query_index = find_imperatively_fetchable_query_index(
-                root_refetched_paths,
-                path,
-                object_selection.name.item.unchecked_conversion(),
-            );
+            // The same pointer can be selected with other arguments at the same position
+            // (e.g. by a nested client field), so the arguments are part of the match.
+            let field_name = SelectionType::Object(NameAndArguments {
+                name: object_selection.name.item,
+                arguments: transform_arguments_with_child_context(
+                    object_selection
+                        .arguments
+                        .iter()
+                        .map(|x| x.item.into_key_and_value()),
+                    initial_variable_context,
+                ),
+            });
+            let refetch_query_index = root_refetched_paths
+                .keys()
+                .position(|(refetch_path, _)| {
+                    refetch_path.linked_fields == path && refetch_path.field_name == field_name
+                })
+                .expect(
+                    "Expected refetch query to be found. \
+                    This is indicative of a bug in Isograph.",
+                );
 
             format!("{refetch_query_index}")
         }
